@@ -30,6 +30,35 @@ func helperWrite(file string, data string) {
 	}
 }
 
+// helperRet is what testscript.RunMain registers: a command that RETURNS its status.  `ret N`
+// returns N (any integer in [-1000000, 1000000]: negative, above 255); every other subcommand
+// is helperMain, which exits by itself or returns 0.
+func helperRet() int {
+	args := os.Args[1:]
+	if len(args) >= 1 && args[0] == "ret" {
+		if len(args) != 2 {
+			helperUsage()
+		}
+		w := args[1]
+		digits := strings.TrimPrefix(w, "-")
+		if digits == "" {
+			helperUsage()
+		}
+		for _, c := range digits {
+			if c < '0' || c > '9' {
+				helperUsage()
+			}
+		}
+		n, err := strconv.ParseInt(w, 10, 64)
+		if err != nil || n > 1000000 || n < -1000000 {
+			helperUsage()
+		}
+		return int(n)
+	}
+	helperMain()
+	return 0
+}
+
 func helperMain() {
 	args := os.Args[1:]
 	if len(args) == 0 {
